@@ -257,9 +257,9 @@ class SpatialVector(SMUserList):
         if isinstance(left, (SE3, Twist3)):
             X = left.Ad()
             if isinstance(right, SpatialM6):
-                return right.__class__(X @ right.A)
+                return right.__class__([X @ x for x in right.data])
             else:
-                return right.__class__(X.T @ right.A)
+                return right.__class__([X.T @ x for x in right.data])
         else:
             raise TypeError('left operand of * must be SE3 or Twist3')
 
@@ -602,11 +602,11 @@ class SpatialInertia(SMUserList):
         """
 
         if isinstance(right, SpatialAcceleration):
-            return SpatialForce(left.A @ right.A)  # F = ma
+            return SpatialForce(left.binop(right, lambda x, y: x @ y))  # F = ma
         elif isinstance(right, SpatialVelocity):
             # crf(v(i).vw)*model.I(i).I*v(i).vw;
             # v = Wrench( a.cross() * I.I * a.vw );
-            return SpatialMomentum(left.A @ right.A)   # M = mv
+            return SpatialMomentum(left.binop(right, lambda x, y: x @ y))   # M = mv
         else:
             raise TypeError('bad postmultiply operands for Inertia *')
 
